@@ -292,6 +292,18 @@ impl<const K: u8> Probe<K> {
                 ctx.delayed_exec(
                     async move {
                         log(EvKind::DelayedRan { actor, timer });
+                        // the delayed task itself may take a while
+                        for s in work.iter() {
+                            match s {
+                                Step::Sleep(t) => {
+                                    let f = with_case(|c| c.sim.sleep_ticks(*t as u64));
+                                    f.await
+                                }
+                                Step::Yield => yield_now().await,
+                                _ => {}
+                            }
+                        }
+                        log(EvKind::Note(format!("delayed-exec-done actor={actor} timer={timer}")));
                     },
                     dur,
                 );
